@@ -825,10 +825,17 @@ func c03StageLoop(c *Ctx, docs [][]byte, names []string) error {
 		if len(doc) > 20000 {
 			nm = 1
 		}
+		allOpts := strings.HasPrefix(names[i], "c03-regress3:")
+		if allOpts {
+			nm = 16
+		}
 		for k := 0; k < nm; k++ {
 			mask := r.Intn(128)
 			if k == 0 && r.Chance(30) {
 				mask = 0
+			}
+			if allOpts {
+				mask = k<<2 | mask&0x43
 			}
 			stub := r.Chance(35)
 			o := c03OptsOf(mask)
@@ -914,8 +921,8 @@ func c03DiffAt(a, b []byte) string {
 // which oracle signatures a document-level trigger can explain
 var c03TrigSigs = map[string]string{
 	"crlf": "attr-value text-words text-space", "hexoverflow": "text-words attr-value",
-	"endomit": "*", "colgroup": "*", "textjoin": "text-words", // a changed tree shifts every later comparison
-	"rawstyle": "raw-text text-space text-words element-structure", "prekept": "raw-text", "hiddenws": "text-space",
+	"colgroup": "*", "textjoin": "text-words", // a changed tree shifts every later comparison
+	"rawstyle": "raw-text text-space text-words element-structure",
 }
 
 func c03Explains(trigs []string, sig string) string {
@@ -930,7 +937,7 @@ func c03Explains(trigs []string, sig string) string {
 }
 
 var c03KnownOfTrig = map[string]string{"hexoverflow": "K-C03-3", "colgroup": "K-C03-6", "textjoin": "K-C03-8", "rawstyle": "K-C03-11",
-	"crlf": "K-C03-13", "endomit": "K-C03-14", "prekept": "K-C03-15", "hiddenws": "K-C03-16"}
+	"crlf": "K-C03-13"}
 
 func c03StageDom(c *Ctx, docs [][]byte, names []string, allMasks bool) error {
 	st := c.R.StartStage("dom", "PROPERTY ORACLE independent of the model: input and real html.Minify output (registry without sub-minifiers) parsed by golang.org/x/net/html and compared modulo the documented changes (comments; whitespace that cannot render, judged with the HTML standard's display classes; droppable default/empty attributes; attribute value normalisations) on generated conforming documents, the fixed snippet corpus (all 32 Keep* combinations), /repo/tests/html/corpus and /repo/_benchmarks; a difference is a failing input unless the document falls under the trigger of an open known finding that explains the difference class; non-trivial = output differs from input")
@@ -1029,7 +1036,7 @@ func c03ReplayKnown(c *Ctx) error {
 		if k.Status == "fixed" && k.ReplayStr("kind") == "dom" {
 			// regression: the input of a fixed finding must parse back to the same document
 			in := []byte(k.ReplayStr("input"))
-			for mask := 0; mask < 128; mask += 4 {
+			for mask := 0; mask < 128; mask += 2 { // every combination except KeepComments
 				o := c03OptsOf(mask)
 				out, err, crash := c03RunReal(in, o, false)
 				if crash != "" || err != nil {
